@@ -468,15 +468,20 @@ Section C11.
   Theorem build_rsteps (w : world) rp goal :
     disk_inv w -> rd_table (w_rd w) <> Some SF_bad -> rsteps w (o_world (build teqb hc hl hr w rp goal)).
   Proof.
-    intros Hinv Hnb. rewrite (build_eq T teqb hc hl hr).
+    intros Hinv Hnb. rewrite (build_eq0 T teqb hc hl hr).
     destruct (init_dir T w) as [[w1 t]|f] eqn:Ei; [|apply init_dir_err in Ei as [E _]; contradiction].
     destruct (init_dir_rs_rinv _ _ _ Hinv Ei) as [Hs1 Ht1].
     destruct (get_nodes T w1 rp goal) as [pack|f]; [|exact Hs1].
-    assert (rs_rinv w (mk_rs T w1 t [] [] [] [])) as H0.
-    { split; [exact Hs1|]. split; [exact Ht1|]. intros r wr []. }
+    (* the early write of what the workers leave of the table (repair of F6): one more ruler step *)
+    pose proof (rsteps_preserve_inv _ _ Hinv Hs1) as Hinv1.
+    assert (rsteps w1 (write_table T w1 (table_rest T hc t pack))) as Hsw.
+    { apply rsteps_one. apply RWriteTable. apply (InvProofs.table_rest_ok T teqb hc w1 t pack Ht1). }
+    set (w1t := write_table T w1 (table_rest T hc t pack)) in *.
+    assert (rs_rinv w (mk_rs T w1t t [] [] [] [])) as H0.
+    { split; [eapply rsteps_trans; eauto|]. split; [eapply tbl_ok_rsteps; eauto|]. intros r wr []. }
     pose proof (run_leaves_rinv w (p_leaves pack) _ Hinv H0) as H1.
-    cbv zeta. fold (st_leaves T teqb hc w1 t pack) in H1.
-    destruct (run_nodes T teqb hc hl hr (st_leaves T teqb hc w1 t pack) (p_nodes pack)) as [st2|] eqn:En.
+    cbv zeta. fold (st_leaves T teqb hc w1t t pack) in H1.
+    destruct (run_nodes T teqb hc hl hr (st_leaves T teqb hc w1t t pack) (p_nodes pack)) as [st2|] eqn:En.
     - pose proof (run_nodes_rinv w _ _ _ Hinv H1 En) as (Hs2 & Ht2 & Hr2).
       assert (js_rinv w (mk_js T (rs_world T st2) (rs_table T st2) [] []) (rs_results T st2)) as Hj0.
       { split; [exact Hs2|]. split; [exact Ht2 | exact Hr2]. }
